@@ -45,6 +45,7 @@ def run(ctx):
     ctx.step(common.no_move_from_callers_object, ctx, "C06.forward",
              [f for f in ctx.fb.functions() if f.file.endswith("/deferred_guarded.hpp")], floor=20)
     ctx.step(exception_identity, ctx, "C06.exc")
+    ctx.step(result_identity, ctx)
     ctx.step(common.raii_only, ctx, "C06.raii", ["deferred_guarded.hpp"], floor=20)
     ctx.step(common.witnesses, ctx, "C06.witness", ["C06"])
 
@@ -414,6 +415,32 @@ def owned_functor(ctx, rid="C06.capture"):
                    "" if bad is None else bad[1] + ": the drainer later calls a destroyed object", fn=f.label, inst=f.qname)
     if n == 0:
         ctx.broken("modify_detach / modify_async not instantiated")
+
+
+def result_identity(ctx, rid="C06.result"):
+    """a future holds its function's RESULT: when the function returns a reference (std::future<R&>), the promise is
+    given that reference - not a reference to a local copy that dies with the helper"""
+    ctx.rule(rid, "a promise of a reference is never set to a local (non-reference) variable", floor=1)
+    n = 0
+    for f in ctx.fb.functions():
+        if not f.file.endswith("/deferred_guarded.hpp"):
+            continue
+        for st in f.stmts.values():
+            if st["k"] != "CXXMemberCallExpr" or (st.get("callee") or {}).get("name") != "set_value" or not st["args"]:
+                continue
+            ot = (f.s(st["obj"]) or {}).get("t", "")
+            if not re.match(r"^std::promise<.*&\s*>$", ot.strip()):
+                continue
+            n += 1
+            a = unwrap(f, f.s(st["args"][0]))
+            bad = a is not None and a["k"] == "DeclRefExpr" and a["d"].get("k") == "local" and not a["d"].get("ref") \
+                and not a["d"].get("inl_ret")
+            ctx.ob(rid, not bad, f.loc(st), "%s hands the reference its function returned to the promise" % f.name,
+                   "" if not bad else "the promise of a reference is bound to the local '%s' (a decayed copy of the result): the "
+                   "future refers to a dead stack object, not to the protected data" % a["d"]["name"], fn=f.label, inst=f.qname)
+    if n == 0:
+        ctx.broken("no std::promise<R&>::set_value found: the driver no longer instantiates modify_async with a "
+                   "reference-returning function, or the direct path changed shape")
 
 
 def exception_identity(ctx, rid):
